@@ -48,11 +48,14 @@ CHECKS.update({
             NOTE_COMMON + "Known finding KF01 (explicit min_count=0 with an absent label) is excluded by hypothesis and reported as KNOWN-FINDING.",
             "Coq proof (factorisation + mask lemmas) + differential correspondence", "5 C05"),
     "C09": ("proof",
-            "Executable Coq model of find_group_cohorts (incidence, exact cohorts, preference rules, containment merging with Python's dict "
-            "overwrite and the asserts) with theorems: incidence exact, exact cohorts partition the present labels with exactly their block sets. "
+            "Executable Coq model of find_group_cohorts (incidence, exact cohorts, preference rules, containment merging, the asserts) with "
+            "theorems for ALL inputs: incidence exact; in EVERY multi-block branch incl. the merging loop (any rows, any visiting order) the cohorts "
+            "list every present label exactly once and each cohort's block set contains every block of its labels; 'blockwise' only if every label "
+            "is confined to one block. "
             "Tie: exact K2 correspondence (method, cohorts, order) on all small 1-D layouts x chunkings x merge + random 2-D / dense layouts; each real "
             "answer also checked against the soundness predicates; provenance sums (2**i) and dependency closures of real graphs.",
-            NOTE_COMMON + "The merging branch is covered by correspondence + run-time soundness predicates; its Coq invariant proof is partial.",
+            NOTE_COMMON + "The consequence for real graphs (dependency closure of each output chunk, exactly-once contribution) is observed on "
+            "materialised graphs (provenance sums 2**i), not proved about dask.",
             "Coq model + proof (planner soundness) + exhaustive small-scope correspondence", "5 C09"),
     "C16": ("proof",
             "Coq theorems: sort=True labels strictly ascending (no duplicates), sort=False labels = request / first appearance, both label sets are "
@@ -61,7 +64,8 @@ CHECKS.update({
             NOTE_COMMON, "Coq proof (sorting/permutation/factorisation) + differential correspondence", "5 C16"),
     "C17": ("proof",
             "Executable Coq models of _get_optimal_chunks_for_groups and of rechunk_for_cohorts' division loop with theorems for ALL inputs: new "
-            "chunks positive and summing to the axis length, forced labels start chunks, old boundaries kept. Tie: exact K2 correspondence on all "
+            "chunks positive and summing to the axis length, with sequential labels (contiguous runs, any label order) no group straddles a new "
+            "boundary, forced labels start chunks, old boundaries kept. Tie: exact K2 correspondence on all "
             "sequential label sequences of total <=7 (9 thorough) x all chunkings + random patterns; postconditions checked on the real results; "
             "array/xarray flavours keep values/metadata and method='blockwise' on the result is exact.",
             NOTE_COMMON + "dask's rechunk is modelled as the identity on values (checked by K3).",
